@@ -694,6 +694,8 @@ def run(ctx):
                 dict(n_leaf=(1, 3), n_mid=(1, 3), max_ports=3, max_children=3)
             recs = base_texts(rng, n_gen, REPO, sizes)
             recs.append({"fmt": "edif", "origin": "fixed:scopes", "text": T.EDIF_SCOPES, "full_refs": True})
+            recs.append({"fmt": "verilog", "origin": "fixed:verilog", "text": T.VERILOG_FIXED, "full_truncate": True})
+            recs.append({"fmt": "eblif", "origin": "fixed:eblif", "text": T.EBLIF_FIXED, "full_truncate": True})
             recs += composed_texts(rng, ctx.scale(2, 5), tmp)
             for fmt in ("edif", "verilog", "eblif"):
                 b = T.bundled_texts(REPO, fmt)
